@@ -984,6 +984,17 @@ func randCT(r *hx.Rng, keys []string) string {
 }
 
 func randCase(r *hx.Rng) hx.Case {
+	c := randCase0(r)
+	if r.Chance(20) {
+		c["multi"] = true // MultiError: the verdict must not depend on it
+	}
+	if r.Chance(5) && jstr(c["body"].(map[string]any), "text") == "" {
+		c["emptyReader"] = true
+	}
+	return c
+}
+
+func randCase0(r *hx.Rng) hx.Case {
 	kind := r.Intn(10)
 	exro := r.Chance(40)
 	switch {
